@@ -119,6 +119,29 @@ def run(ctx, rep):
                f'wrap of period {k:g} on the longitude difference is compatible with the period {period:g} of sin/cos' if okp else
                f'the longitude difference is reduced modulo {k:g}, but sin/cos need a multiple of {period:g}: differences beyond '
                f'{k:g} (sites past the Kaaba\'s antimeridian) get a different bearing')
+    # ... the same for a wrap written as a conditional shift: `if d < -180 { d + k } else { d }` must shift by a whole number of periods
+    for x in subterms(deg):
+        if not (x and x[0] == 'ite'):
+            continue
+        for shifted, plain in ((x[2], x[3]), (x[3], x[2])):
+            if not (isinstance(shifted, tuple) and shifted and shifted[0] == 'bin' and shifted[1] in ('Add', 'Sub')):
+                continue
+            k = None
+            if shifted[2] == plain and const_f64(shifted[3]) is not None:
+                k = abs(const_f64(shifted[3]))
+            elif shifted[1] == 'Add' and shifted[3] == plain and const_f64(shifted[2]) is not None:
+                k = abs(const_f64(shifted[2]))
+            if k is None or k == 0 or not any(y == lon for y in subterms(plain)):
+                continue
+            n_wraps += 1
+            in_rad = any(y and y[0] == 'app' and y[1] == 'to_radians' for y in subterms(plain))
+            period = 2 * _math.pi if in_rad else 360.0
+            ratio = k / period
+            okp = abs(ratio - round(ratio)) < 1e-9 and round(ratio) >= 1
+            rep.ob('R16.6', 'longitude-shift-period', okp,
+                   f'conditional shift by {k:g} of the longitude difference is a whole number of periods ({period:g})' if okp else
+                   f'the longitude difference is shifted by {k:g} on one side of a comparison, but sin/cos need a multiple of {period:g}: '
+                   'sites beyond the comparison get a different bearing')
     rep.extra['longitude_wraps'] = n_wraps
     # R16.5 mirror antisymmetry and sign convention
     if dl is not None:
